@@ -810,21 +810,12 @@ pub fn part_types(ev: &mut Ev, model: &mut Model, opts: &Opts) {
                 );
             } else {
                 ev.hit("types:deep-type-parens-fast");
-                // the MODEL still has the separate `(@t -> t)` alternative (the equality with 1d93429
-                // is not proved), so it is exponential in receive-position nesting: those two forms
-                // are checked on the implementation only (accepted, fast, and format ∘ parse stable)
+                // the model is the grammar of 1d93429 (`parseTypeG`, proved equal to the original
+                // grammar: receive_factored_eq), linear in every one of these forms: all of them go
+                // through the full model comparison
+                check_text(ev, model, "deep-type-parens", &src);
                 if form == 4 || form == 6 {
-                    let again = catch(|| quiver_compiler::parse(&src).map(|p| quiver_compiler::format_program(&p, &src))).ok().and_then(|r| r.ok());
-                    let first = |i: &Impl| match i {
-                        Impl::Ok { first_alias: Some(a), statements: 1 } => Some(a.clone()),
-                        _ => None,
-                    };
-                    let stable = again.as_ref().map(|t| first(&run_impl(t)).is_some() && first(&run_impl(t)) == first(&imp)).unwrap_or(false);
-                    if !stable {
-                        ev.violation("types kind=deep-receive-nest-not-stable", &format!("format then parse of a {depth}-deep receive nest changes the alias"), json!({"source": src}), true);
-                    }
-                } else {
-                    check_text(ev, model, "deep-type-parens", &src);
+                    ev.hit("types:deep-receive-nest-model-compared");
                 }
             }
         }
